@@ -217,6 +217,25 @@ pub fn generate(group: &str, seed: u64, n: usize) -> Vec<Value> {
                     json!({"f": {"kind":"linear","terms":terms,"constant":[p / g, d / g]}})));
             }
         }
+        "store" => {
+            // random histories of the artifact store: more names (ports, nested repositories), more paths, longer
+            let names = ["ghcr.io/o/r/x:v1", "localhost:5000/t/y:tag1", "ttl.sh/abc:1h", "registry.example.com:5000/a/b/c:tag-1.0"];
+            let paths = ["a1", "a2", "a3"];
+            for k in 0..n {
+                let len = 2 + r.below(7);
+                let mut ops = vec![];
+                for _ in 0..len {
+                    let layers: Vec<Value> = (0..r.below(4)).map(|_| json!([*r.pick(&["solution", "instance"]), 1 + r.below(5)])).collect();
+                    ops.push(match r.below(6) {
+                        0 | 1 => json!({"op":"build_archive","path":*r.pick(&paths),"name": if r.chance(1, 4) { json!([]) } else { json!([*r.pick(&names)]) },"layers":layers}),
+                        2 => json!({"op":"build_dir","name":*r.pick(&names),"layers":layers}),
+                        3 | 4 => json!({"op":"load","path":*r.pick(&paths)}),
+                        _ => json!({"op":"save","name":*r.pick(&names),"out":*r.pick(&paths)}),
+                    });
+                }
+                out.push(json!({"ev":"store","case":format!("d-store-{k}"),"src":"drive","in":{"dir":"work/C20/arch","ops":ops}}));
+            }
+        }
         other => {
             out.extend(crate::gen_inst::generate(other, &mut r, n));
         }
